@@ -297,12 +297,16 @@ func (m Msg) String() string {
 // Alphabet returns the traffic messages enumerated for a tree: every decision path through the tree (at
 // each filter reached: true/false; at each verifier kind reached for the first time: met/unmet; whatever
 // is not reached keeps the default "selector absent"/"unmet"), and for API-marked requests every routing
-// path with all reached expectations unmet, plus - if the tree holds a pingback verifier, the only kind
-// whose state changes on a *met* expectation - every routing path with all reached expectations met.
+// path that reaches at least one verifier, with all reached expectations unmet, plus - if the tree holds a
+// pingback verifier, the only kind whose state changes on a *met* expectation - the same routing paths with
+// all reached expectations met.
 func Alphabet(t *Node) []Msg {
 	var out []Msg
 	seen := map[Msg]bool{}
 	emit := func(m Msg) {
+		if m.API && len(Reached(t, m)) == 0 {
+			return
+		}
 		if !seen[m] {
 			seen[m] = true
 			out = append(out, m)
@@ -363,6 +367,39 @@ func Alphabet(t *Node) []Msg {
 			break
 		}
 	}
+	return out
+}
+
+// Reached lists the verifier nodes message m is routed to.
+func Reached(t *Node, m Msg) []*Node {
+	var out []*Node
+	var rec func(x *Node)
+	rec = func(x *Node) {
+		sel := m.Sel&(1<<uint(x.ID)) != 0
+		switch x.Kind {
+		case KGroup:
+			for _, k := range x.Kids {
+				rec(k)
+			}
+		case KFilterT:
+			if sel {
+				rec(x.Kids[0])
+			}
+		case KFilterE:
+			if !sel {
+				rec(x.Kids[0])
+			}
+		case KFilterTE:
+			if sel {
+				rec(x.Kids[0])
+			} else {
+				rec(x.Kids[1])
+			}
+		default:
+			out = append(out, x)
+		}
+	}
+	rec(t)
 	return out
 }
 
@@ -467,23 +504,23 @@ func Eval(t *Node, m Msg, id int) []Rec {
 				rec(x.Kids[1])
 			}
 		case KFailure:
-			out = append(out, Rec{Tok: fmt.Sprintf("failure%d#%d", x.ID, id), Leaf: x.ID, Kind: KFailure, Side: SideReq, MsgID: id})
+			out = append(out, Rec{Tok: "failure" + strconv.Itoa(x.ID) + "#" + strconv.Itoa(id), Leaf: x.ID, Kind: KFailure, Side: SideReq, MsgID: id})
 		case KPingback:
 			if m.met(KPingback) {
 				out = append(out, Rec{Tok: "", Leaf: x.ID, Kind: KPingback, Side: SideReq, MsgID: id})
 			}
 		case KHeader:
 			if !m.met(KHeader) {
-				out = append(out, Rec{Tok: fmt.Sprintf("header:request#%d", id), Leaf: x.ID, Kind: KHeader, Side: SideReq, MsgID: id})
-				out = append(out, Rec{Tok: fmt.Sprintf("header:response#%d", id), Leaf: x.ID, Kind: KHeader, Side: SideRes, MsgID: id})
+				out = append(out, Rec{Tok: "header:request#" + strconv.Itoa(id), Leaf: x.ID, Kind: KHeader, Side: SideReq, MsgID: id})
+				out = append(out, Rec{Tok: "header:response#" + strconv.Itoa(id), Leaf: x.ID, Kind: KHeader, Side: SideRes, MsgID: id})
 			}
 		case KStatus:
 			if !m.met(KStatus) {
-				out = append(out, Rec{Tok: fmt.Sprintf("status#%d", id), Leaf: x.ID, Kind: KStatus, Side: SideRes, MsgID: id})
+				out = append(out, Rec{Tok: "status#" + strconv.Itoa(id), Leaf: x.ID, Kind: KStatus, Side: SideRes, MsgID: id})
 			}
 		default: // method, url, query: request side
 			if !m.met(x.Kind) {
-				out = append(out, Rec{Tok: fmt.Sprintf("%s#%d", KindNames[x.Kind], id), Leaf: x.ID, Kind: x.Kind, Side: SideReq, MsgID: id})
+				out = append(out, Rec{Tok: KindNames[x.Kind] + "#" + strconv.Itoa(id), Leaf: x.ID, Kind: x.Kind, Side: SideReq, MsgID: id})
 			}
 		}
 	}
@@ -686,6 +723,27 @@ func (md *Model) Diff(actual []string) []Finding {
 // StateKey is a canonical rendering of the abstract state.
 func (md *Model) StateKey() string {
 	return strings.Join(md.Expected(), ",")
+}
+
+// StateHash is an order-independent 64-bit digest of the abstract state (multiset of live tokens and the
+// pingback flags); used to count distinct states cheaply.
+func (md *Model) StateHash() uint64 {
+	var sum uint64
+	for i := range md.Recs {
+		if md.Recs[i].State == Live {
+			h := uint64(14695981039346656037)
+			for j := 0; j < len(md.Recs[i].Tok); j++ {
+				h = (h ^ uint64(md.Recs[i].Tok[j])) * 1099511628211
+			}
+			sum += h
+		}
+	}
+	for l, s := range md.Seen {
+		if s == 1 {
+			sum += uint64(l+1) * 0x9e3779b97f4a7c15
+		}
+	}
+	return sum
 }
 
 // ---- observation: from error messages to tokens ----
